@@ -109,8 +109,18 @@ func (p c08) RunUnit(idx int, tier string, seed int64, focus map[string]string, 
 		var sites []valueSite
 		valueSites(body, model.EffRoot(pc.Schema), &sites)
 		sort.Slice(sites, func(i, j int) bool { return sites[i].attr.SrcRange.Start.Byte < sites[j].attr.SrcRange.Start.Byte })
+		// the seeded picks, preceded by every attribute of the root body (few, and the only
+		// ones that are edited outside any block)
+		var picks []valueSite
+		for _, s := range sites {
+			if s.attr.SrcRange.Start.Column == 1 && len(picks) < 6 {
+				picks = append(picks, s)
+			}
+		}
 		for r := 0; r < replays && len(sites) > 0; r++ {
-			s := sites[rnd.Intn(len(sites))]
+			picks = append(picks, sites[rnd.Intn(len(sites))])
+		}
+		for _, s := range picks {
 			// rewrite "name = <expr>" to "name = " (rest of the expression dropped)
 			es, ee := s.attr.Expr.Range().Start.Byte, s.attr.Expr.Range().End.Byte
 			if es <= 0 || ee > len(text) || es > ee {
